@@ -5,6 +5,77 @@ import forestlib
 from props.c20 import problems
 
 
+
+def _lattice_case(seed):
+    """dynamic_complete with regexp terminals (inside the truncation-closed pool, outside finding F6): ambiguity inside terminals.  All derivations of the
+    character lattice (every member prefix of every terminal at every offset, ignored text skipped between tokens) are enumerated by the lattice oracle and
+    compared, as sets of trees with token types, texts and offsets, with the expanded explicit-ambiguity result."""
+    import random, re, json
+    from lark import Lark, Tree, Token
+    from lark.exceptions import UnexpectedInput, LarkError, GrammarError
+    from common import guarded, Timeout
+    import earleylib, oracle_derivs, forestlib
+    rng = random.Random(seed)
+    g = earleylib.gen_cfg(rng, regex_terms=True, max_nts=3, aliases=False)
+    out = {'grammar': g, 'runs': []}
+    try:
+        with guarded(6):
+            p = Lark(g, parser='earley', lexer='dynamic_complete', ambiguity='explicit')
+    except (LarkError, GrammarError, Timeout):
+        out['nobuild'] = True; return out
+    if not oracle_derivs.acyclic(p.rules):
+        out['cyclic'] = True; return out
+    pats = {t.name: re.compile(t.pattern.to_regexp()) for t in p.terminals}
+    ign = [pats[n_] for n_ in p.ignore_tokens]
+    for _ in range(3):
+        text = earleylib.sample_sentence(rng, p) if rng.random() < 0.7 else None
+        if text is None or len(text) > 9:
+            text = earleylib.rand_input(rng, g, 6)
+        n = len(text)
+        # ignorable closure: positions reachable from i through ignored matches
+        step = {i: {j for r in ign for j in range(i + 1, n + 1) if r.fullmatch(text, i, j)} for i in range(n + 1)}
+        skip = {}
+        for i in range(n, -1, -1):
+            acc = {i}
+            for j in step[i]: acc |= skip[j]
+            skip[i] = acc
+        spans = {}
+        def term_spans(name, i):
+            key = (name, i)
+            if key not in spans:
+                r = pats[name]
+                spans[key] = [(ii, jj) for ii in sorted(skip[i]) for jj in range(ii + 1, n + 1) if r.fullmatch(text, ii, jj)]
+            return spans[key]
+        run = {'text': text}
+        try:
+            with guarded(6):
+                ds = oracle_derivs.derivations_lattice(p.rules, n, term_spans, 'start', lambda j: n in skip[j], limit=150)
+        except (Timeout, RecursionError):
+            ds = None
+        if ds is None:
+            run['skipped'] = 'too_many_or_slow'; out['runs'].append(run); continue
+        def canon_d(d):
+            r, ch = d
+            return ['T', str(r.alias or r.origin.name), [canon_d(c) if isinstance(c[0], type(r)) else ['t', c[0], text[c[1]:c[2]], c[1], c[2]] for c in ch]]
+        want = sorted({json.dumps(canon_d(d)) for d in ds})
+        def canon_t(t):
+            if isinstance(t, Tree):
+                return ['T', str(t.data), [canon_t(c) for c in t.children]]
+            return ['t', t.type, str(t), t.start_pos, t.end_pos]
+        try:
+            with guarded(8):
+                tree = p.parse(text)
+                got = sorted({json.dumps(canon_t(x)) for x in forestlib.expand_ambig(tree)[:2000]})
+        except UnexpectedInput:
+            got = []
+        except Timeout:
+            run['skipped'] = 'explicit_timeout'; out['runs'].append(run); continue
+        run['nderivs'] = len(want)
+        if got != want:
+            run['missing'] = [x for x in want if x not in got][:2]; run['extra'] = [x for x in got if x not in want][:2]
+        out['runs'].append(run)
+    return out
+
 def run(ctx, res):
     for f in ctx['known']:
         if f['id'] == 'F12' and f['status'] == 'fixed':
@@ -81,3 +152,28 @@ def run(ctx, res):
     # enumeration above (it starts from the compiled rules)
     import ebnflib
     ebnflib.check(ctx, res, 44, 250, 6000, big=False, label='EBNF (explicit ambiguity: exact set of trees)', exact=True)
+    # ---- ambiguity inside terminals (dynamic_complete, regexp terminals): lattice-level derivation oracle
+    from common import pmap, tier_scale
+    import random as _r
+    rng3 = _r.Random(ctx['seed'] * 1000003 + 404)
+    seeds = [rng3.randrange(1 << 30) for _ in range(tier_scale(ctx['tier'], 700, 9000) * (3 if ctx['deepen'] else 1))]
+    for seed, (st, rec) in zip(seeds, pmap(_lattice_case, seeds, chunksize=4)):
+        if st != 'ok':
+            if st == 'exc':
+                if not exc_in_lark(rec):
+                    raise InfraError(rec)
+                res.violation('parsing with dynamic_complete raised an unexpected exception', {'seed': seed, 'detail': rec})
+            else:
+                res.inconclusive[st] = res.inconclusive.get(st, 0) + 1
+            continue
+        if rec.get('nobuild') or rec.get('cyclic'):
+            res.count('lattice_' + ('nobuild' if rec.get('nobuild') else 'cyclic_skipped')); continue
+        for run_ in rec['runs']:
+            if 'skipped' in run_:
+                res.count('lattice_skipped_' + run_['skipped']); continue
+            res.case(['lattice', rec['grammar'], run_['text']], nontrivial=run_['nderivs'] > 1,
+                     sample={'grammar': rec['grammar'], 'text': run_['text'], 'derivations': run_['nderivs']} if run_['nderivs'] > 2 and len(res.samples) < 6 else None)
+            res.count('lattice_inputs'); res.count('lattice_ambiguous', 1 if run_['nderivs'] > 1 else 0); res.count('lattice_accepted', 1 if run_['nderivs'] else 0)
+            if 'missing' in run_:
+                res.violation('dynamic_complete: expanding the _ambig nodes does not give exactly the derivations of the character lattice (ambiguity inside terminals included)',
+                              {'grammar': rec['grammar'], 'text': run_['text'], 'derivations': run_['nderivs'], 'missing': run_['missing'], 'not_a_derivation': run_['extra']})
